@@ -74,8 +74,13 @@ func (m *Mods) hijack(ctx *martian.Context, id int) {
 	if err != nil {
 		return
 	}
-	fmt.Fprintf(brw, "HTTP/1.1 299 Hijacked\r\nX-Verif-Hijack: %d\r\nContent-Length: 0\r\n\r\n", id)
-	brw.Flush()
+	if id%2 == 1 {
+		// speak through the connection itself rather than the buffered reader/writer pair
+		fmt.Fprintf(conn, "HTTP/1.1 299 Hijacked\r\nX-Verif-Hijack: %d\r\nContent-Length: 0\r\n\r\n", id)
+	} else {
+		fmt.Fprintf(brw, "HTTP/1.1 299 Hijacked\r\nX-Verif-Hijack: %d\r\nContent-Length: 0\r\n\r\n", id)
+		brw.Flush()
+	}
 	// whatever the client sends from now on belongs to the hijacker
 	conn.SetReadDeadline(time.Now().Add(80 * time.Millisecond))
 	io.Copy(io.Discard, brw)
